@@ -6,7 +6,8 @@ Enumerated: the full product
     x --omit-serialization-support {off, on} x --generate-namespace-types {off, on}
     x templates {built-in, user --templates dir, user --templates + --support-templates dirs}
     x --output-extension {default, .x} x --namespace-output-stem {default, ns_}
-    x namespace set {flat, nested, root + two-level --lookup-dir dependency}
+    x namespace set {flat, nested, root + two-level --lookup-dir dependency}; the flat set has three versions
+      (1.0, 1.1, 2.0) of one type directly in the root namespace, the nested set has them in a nested namespace
 (2 304 configurations; the ones argparse rejects or for which the real run fails are counted and are out of scope).
 The way the paths are written on the command line (absolute / relative to the working directory) is derived from
 the configuration id, so both spellings occur all over the product without doubling it.
@@ -70,7 +71,12 @@ DSDL_SETS: typing.Dict[str, typing.Tuple[str, typing.List[str], typing.Dict[str,
         {
             "roots/flatns/S.1.0.dsdl": f"uint8 a\nfloat32 f\n{SLOT}\n@sealed\n",
             "roots/flatns/U.1.0.dsdl": f"@union\nuint8 a\nuint16 b\n{SLOT}\n@sealed\n",
+            # three versions of one type (minor and major bump) directly in the root namespace: pydsdl's full_name
+            # carries no version, so anything keyed by name alone confuses them.  Delimited, so that the added field
+            # keeps the minor versions compatible (same extent).
             "roots/flatns/X.1.0.dsdl": f"uint8[<=4] data\n{SLOT}\n@extent 128\n",
+            "roots/flatns/X.1.1.dsdl": f"uint8[<=4] data\nuint8 more\n{SLOT}\n@extent 128\n",
+            "roots/flatns/X.2.0.dsdl": f"uint16 other\n{SLOT}\n@sealed\n",
             "roots/flatns/Svc.1.0.dsdl": f"uint8 q\n{SLOT}\n@sealed\n---\nuint8 r\n@sealed\n",
         },
     ),
@@ -80,6 +86,9 @@ DSDL_SETS: typing.Dict[str, typing.Tuple[str, typing.List[str], typing.Dict[str,
         {
             "roots/nest/A.1.0.dsdl": f"uint8 a\n{SLOT}\n@sealed\n",
             "roots/nest/sub/B.1.0.dsdl": f"nest.A.1.0 a\nuint8 b\n{SLOT}\n@extent 256\n",
+            # the same three-version shape inside a nested namespace
+            "roots/nest/sub/B.1.1.dsdl": f"nest.A.1.0 a\nuint8 b\nuint16 c\n{SLOT}\n@extent 256\n",
+            "roots/nest/sub/B.2.0.dsdl": f"uint32 d\n{SLOT}\n@sealed\n",
             "roots/nest/sub/deep/C.1.0.dsdl": f"@union\nuint8 u\nnest.A.1.0 a\n{SLOT}\n@sealed\n",
             "roots/nest/mid/leaf/E.1.0.dsdl": f"uint8 q\n{SLOT}\n@sealed\n---\nnest.A.1.0 r\n@extent 64\n",
         },
@@ -859,8 +868,9 @@ def run(ctx: Ctx) -> int:
         "exploration",
         cov,
         [
-            "three fixed namespace sets (4-7 small types: struct, union, delimited, service; nesting depth <= 3; one "
-            "two-level lookup dependency) stand for all namespace sets",
+            "three fixed namespace sets (6-7 small types: struct, union, delimited, service; three versions of one type "
+            "at root and at nested level; nesting depth <= 3; one two-level lookup dependency) stand for all "
+            "namespace sets",
             "a template influences the output iff putting a visible token after every tag (or at the end of the file) "
             "changes an output byte; a mutant for which generation fails is counted but proves nothing",
             "built-in templates are mutated as read through DSDLTemplateLoader.get_source (harness-side wrapper), never "
